@@ -2,6 +2,7 @@
 package record
 
 import (
+	"bytes"
 	"context"
 	"encoding/hex"
 	"fmt"
@@ -13,6 +14,7 @@ import (
 	storetypes "cosmossdk.io/store/types"
 	sdk "github.com/cosmos/cosmos-sdk/types"
 
+	recordmod "mods.irisnet.org/modules/record"
 	recordtypes "mods.irisnet.org/modules/record/types"
 
 	"verifharness/hx"
@@ -23,6 +25,9 @@ const nAcc = 4
 type R struct {
 	env *hx.Env
 	Len int // operations per history (the last one is query_all)
+	// Genesis makes Gen emit `record export` / `record reimport` now and then (C12 runs only: the
+	// histories of every other check are generated without it and stay what they were)
+	Genesis bool
 
 	// generator-only memory of the current history (never read by Exec)
 	ids   []string
@@ -180,6 +185,16 @@ func (r *R) Gen(ctx sdk.Context, g *hx.Rng) string {
 	if r.Len > 0 && r.count >= r.Len {
 		return "record query_all"
 	}
+	// genesis round trip inside the history (C12): the exported document, and a re-import after
+	// which the rest of the history runs on the imported store (no draw at all without the flag)
+	if r.Genesis && r.hasRecords(ctx) {
+		if g.Chance(1, 12) {
+			return "record export"
+		}
+		if g.Chance(1, 12) {
+			return "record reimport"
+		}
+	}
 	switch g.Pick(12, 4, 1, 1, 2) {
 	case 0:
 		var tx string
@@ -221,6 +236,35 @@ func (r *R) Gen(ctx sdk.Context, g *hx.Rng) string {
 	default:
 		return "record next_block"
 	}
+}
+
+func (r *R) hasRecords(ctx sdk.Context) bool {
+	it := r.env.Record.RecordsIterator(ctx)
+	defer it.Close()
+	return it.Valid()
+}
+
+// storeIds lists the ids (hex) under the record prefix in key order.
+func (r *R) storeIds(ctx sdk.Context) []string {
+	it := r.env.Record.RecordsIterator(ctx)
+	defer it.Close()
+	var ids []string
+	for ; it.Valid(); it.Next() {
+		ids = append(ids, hex.EncodeToString(it.Key()[1:]))
+	}
+	return ids
+}
+
+// genesisRecs renders the records of the real genesis document in the document's own order.
+func genesisRecs(gs *recordtypes.GenesisState) string {
+	var es []string
+	for _, rec := range gs.Records {
+		es = append(es, showRec(rec))
+	}
+	if len(es) == 0 {
+		return "-"
+	}
+	return strings.Join(es, ";")
 }
 
 func parseContent(s string) recordtypes.Content {
@@ -318,6 +362,51 @@ func (r *R) Exec(ctx sdk.Context, line string) (sdk.Context, string) {
 		return ctx, fmt.Sprintf("ok %s found=%t rec=%s", r.counts(ctx), found, showRec(*resp.Record))
 	case "query_all":
 		return ctx, "ok " + r.counts(ctx) + " recs=" + r.dump(ctx)
+	case "export":
+		// the record module has no begin/end-block logic: every state is a block-boundary state
+		gs := recordmod.ExportGenesis(ctx, r.env.Record)
+		v := "ok"
+		if p, _ := hx.NoPanic(func() {
+			if err := recordtypes.ValidateGenesis(*gs); err != nil {
+				v = "err"
+			}
+		}); p {
+			v = "panic"
+		}
+		return ctx, fmt.Sprintf("ok %s validate=%s grecs=%s", r.counts(ctx), v, genesisRecs(gs))
+	case "reimport":
+		// real export, wipe every key of the module store (records and the counter key), real
+		// InitGenesis on the empty store; the rest of the history runs on the imported store
+		before := r.State(ctx)
+		gs := recordmod.ExportGenesis(ctx, r.env.Record)
+		class, _ := hx.Try(ctx, func(c sdk.Context) error {
+			st := r.store(c)
+			it := storetypes.KVStorePrefixIterator(st, nil)
+			var keys [][]byte
+			for ; it.Valid(); it.Next() {
+				keys = append(keys, bytes.Clone(it.Key()))
+			}
+			it.Close()
+			for _, k := range keys {
+				st.Delete(k)
+			}
+			recordmod.InitGenesis(c, r.env.Record, *gs)
+			return nil
+		})
+		same := 0
+		if before == r.State(ctx) {
+			same = 1
+		}
+		// generator memory only: the ids of the imported store, plus every other id handed out
+		// before the import (later `query` ops probe ids that may now be unknown — F-gen-3)
+		var mem []string
+		for i, id := range r.ids {
+			if i%2 == 0 {
+				mem = append(mem, id)
+			}
+		}
+		r.ids = append(mem, r.storeIds(ctx)...)
+		return ctx, fmt.Sprintf("%s %s same=%d recs=%s", class, r.counts(ctx), same, r.dump(ctx))
 	case "next_block":
 		ctx = hx.WithBlock(ctx, ctx.BlockHeight()+1, ctx.BlockTime().Add(5*time.Second))
 		m := r.env.App.ModuleManager.Modules[recordtypes.ModuleName]
